@@ -40,9 +40,12 @@ class MemWriter:
         self.lost_write = "error"
         self.stop_requests = 0
         self.close_called = False
+        self.write_failed = False
 
     def write(self, data):
         if self.closed:
+            if self.lost_write == "error":
+                self.write_failed = True     # the transport notices the loss and starts closing
             return
         if b'["stop",' in data:
             self.stop_requests += 1       # mosaik's stop request has been put on the wire
@@ -87,7 +90,9 @@ class MemWriter:
                 w.set_result(None)
 
     def is_closing(self):
-        return self.closed
+        # EOF from the peer leaves a stream transport open for writing (half-open); it is
+        # closing only after a local close() or a failed write
+        return self.close_called or self.write_failed
 
     async def wait_closed(self):
         if self.lost:
